@@ -30,6 +30,7 @@ CONSTANTS
   Seps,         \* separators that may stand before an argument group (<<>> only: adjacent arguments)
   Labels,       \* item labels (set of Seq(Char)); the empty sequence = no label
   UserSkipG,    \* skip_envs option of the run
+  ExtraQueries, \* further names to search for (e.g. names that occur only inside comments / verbatim bodies)
   Budget, MaxDepth, MaxSib, MaxArgs
 
 VARIABLES gstack, gn, ast
@@ -100,6 +101,9 @@ Anchor(hd, its) ==
        THEN (IF Len(its) = 1 THEN hd ELSE its[Len(its)-1])
        ELSE Last(its)
 
+RECURSIVE TrailBs(_)
+TrailBs(s) == IF s # <<>> /\ s[Len(s)] = "\\" THEN 1 + TrailBs(SubSeq(s, 1, Len(s)-1)) ELSE 0
+LoneBackslashEnd(s) == TrailBs(s) % 2 = 1
 HasTopBracketClose(x) == x.k = "text" /\ \E i \in 1..Len(x.s) : x.s[i] = "]" /\ (i = 1 \/ x.s[i-1] # "\\")
 CanFollow(fr, new) ==
   LET its == fr.items
@@ -113,7 +117,7 @@ CanFollow(fr, new) ==
      /\ ~(IsTextNode(prev) /\ IsTextNode(new) /\ its # <<>>)                                      \* G8
      /\ ~(prev.k = "text" /\ prev.kind = "Com" /\ ~(IsTextNode(new) /\ nf = "\n"))                \* G4
      /\ ~(prev.k = "math" /\ prev.kind \in {"$", "$$"} /\ nf = "$")                               \* G5
-     /\ ~(IsTextNode(prev) /\ prev.s # <<>> /\ Last(prev.s) = "\\")                               \* a text run never ends in a lone backslash
+     /\ ~(IsTextNode(prev) /\ LoneBackslashEnd(prev.s))                                          \* a text run never ends in a lone backslash
 
 TopG == gstack[Len(gstack)]
 Frame(ck, kind, name, hd) == [ck |-> ck, kind |-> kind, name |-> name, args |-> <<>>, hd |-> hd, items |-> <<>>, pre |-> <<>>]
@@ -157,6 +161,7 @@ OpenArg ==
      /\ Len(sofar) < MaxArgs
      /\ \E kind \in {"[", "{"} : \E sep \in Seps :
           /\ (kind = "[" => \A i \in 1..Len(sofar) : sofar[i].kind = "[")
+          /\ (HeaderOpen => sep = <<>>)     \* header arguments follow the {name} group: outside the bracket-then-brace run shape
           /\ gstack' = Append(gstack, [Frame("arg", kind, <<>>, NoHead) EXCEPT !.pre = sep, !.name = IF HeaderOpen THEN <<"h">> ELSE <<"l">>])
   /\ gn' = gn + 1 /\ UNCHANGED <<ast, mvars>>
 
@@ -184,7 +189,7 @@ OpenItem ==
 
 LastOK(fr) == IF fr.items = <<>> THEN TRUE
               ELSE /\ ~(Last(fr.items).k = "text" /\ Last(fr.items).kind = "Com")
-                   /\ ~(IsTextNode(Last(fr.items)) /\ Last(Last(fr.items).s) = "\\")
+                   /\ ~(IsTextNode(Last(fr.items)) /\ LoneBackslashEnd(Last(fr.items).s))
 (* an item (or list) may end with a command that has no argument only if what follows is not a letter: \end / \item follow, fine *)
 Close ==
   /\ Gen /\ Len(gstack) > 1 /\ LastOK(TopG)
@@ -209,7 +214,7 @@ Close ==
 
 Finish ==
   /\ Gen /\ Len(gstack) = 1 /\ TopG.items # <<>>
-  /\ ~(IsTextNode(Last(TopG.items)) /\ Last(Last(TopG.items).s) = "\\")
+  /\ ~(IsTextNode(Last(TopG.items)) /\ LoneBackslashEnd(Last(TopG.items).s))
   /\ ast' = PlaceSeq(TopG.items, 0)
   /\ ResetRun(SrcSeq(TopG.items), 0, UserSkipG)
   /\ UNCHANGED <<gstack, gn>>
@@ -232,7 +237,7 @@ AllNodes(r) == NodesSeq(r.body)
 SearchRoots(r) == << r >> \o NonText(Descendants(r))
 Absent == <<"z","z","q">>
 Queries(r) == LET ns == NonText(AllNodes(r)) IN
-              NameSet(ns) \cup {Absent}
+              NameSet(ns) \cup {Absent} \cup ExtraQueries
               \cup {Str(x) : x \in {ns[i] : i \in {j \in 1..Len(ns) : ns[j].k = "cmd" /\ ns[j].args # <<>>}}}
               \cup {BeginOf(x.name) : x \in {ns[i] : i \in {j \in 1..Len(ns) : ns[j].k = "env"}}}
               \cup {BeginOf(x.name) \o StrSeq(x.args) : x \in {ns[i] : i \in {j \in 1..Len(ns) : ns[j].k = "env" /\ ns[j].args # <<>>}}}
@@ -250,6 +255,7 @@ FindTable(r) == LET rs == SearchRoots(r)
 DoneP == phase = "done"
 C01_RoundTrip == DoneP => (outcome = "ok" /\ StrSeq(root) = input)
 C01_Slices == (DoneP /\ outcome = "ok") => \A x \in {AllNodes(MRoot)[i] : i \in 1..Len(AllNodes(MRoot))} : (x.pos >= 0 => SliceOK(input, x))
+C09_Conserves == (DoneP /\ outcome = "ok") => Conserves(input, StrSeq(root))
 C02_Structure == (DoneP /\ outcome = "ok") => AbsSeq(root) = AbsSeq(Oracle)
 C03_Search == (DoneP /\ outcome = "ok") =>
                  LET mr == SearchRoots(MRoot)  orr == SearchRoots(ORoot) IN
